@@ -7,7 +7,7 @@ whose readers are put into a closed normal form by straight-line symbolic
 substitution and compared with the grammar the writer emits.
 """
 from sa.h import *
-from sa.tables import ConstEval
+from sa.tables import ConstEval, _Return as _EvalReturn
 
 import copy
 import hashlib
@@ -32,11 +32,17 @@ EXPLANATION = (
     "netstring writer '<decimal len>:<bytes>,' and split_netstring consume the same grammar; (6) UEB: "
     "pack_extension emits key ':' netstring(value) with decimal ints, keys cannot contain ':', unpack_extension "
     "consumes exactly that, and the keys converted back to int are exactly the keys the encoder stores from its "
-    "integer parameters; (7) base32: the alphabet and the last-character table s8 that a2b's precondition consults "
-    "(evaluated from the module initialiser) contain every character b2a can emit for each length class, b2a strips "
-    "'=' and lower-cases, a2b upper-cases and re-pads to a multiple of 8; base62: 62 distinct characters, the radix "
-    "literal of all four functions is the alphabet size, encode/decode use the inverse translation tables; (8) s8 "
-    "contains no character b2a cannot emit (rejection of non-canonical trailing bits; was a finding, repaired by "
+    "integer parameters; (7) base32: a2b and b2a themselves are interpreted by the constant interpreter (module tables and "
+    "helpers of any shape - 8x256 arrays, tuples of byte strings, comprehensions - are evaluated, not matched; a failed "
+    "precondition / assert / raise / table lookup and a base64 error count as rejection) on every string of length 1..16 whose final "
+    "byte runs over 0..255, on a string with every byte in the middle, and on encodings of up to 21 bytes: every encoding b2a "
+    "can emit (RFC 4648, '=' stripped, lower case, the reference being the standard library) is accepted and decodes to its "
+    "bytes - alphabet, length classes, final-character sets, case and re-padding - and b2a evaluates to the reference; "
+    "base62: 62 distinct characters, the radix "
+    "literal of all four functions is the alphabet size, encode/decode use the inverse translation tables; (8) a2b evaluates "
+    "to a value only on canonical strings: per length class the accepted final characters are exactly those whose value is a "
+    "multiple of 2**(unused low bits), and no string containing a character outside the alphabet is decoded (rejection of "
+    "non-canonical trailing bits; was a finding, repaired by "
     "7af941e); (9) version dispatch of the share-layout readers (ReadBucketProxy._parse_offsets, Share._satisfy_offsets/"
     "_desire_offsets, unpack_share, unpack_sdmf/mdmf_checkstring, MDMFSlotReadProxy._process_encoding_parameters): the "
     "reader's CFG is walked once per representative value of the unpacked version field (each constant the tests "
@@ -83,7 +89,7 @@ EXPLANATION = (
     "_process_encoding_parameters having raised) are not walked; a dispatch through a computed (non-literal) table is "
     "reported rather than understood.")
 TECHNIQUE = ("static analysis: constant folding of struct formats/offsets and table agreement between pack and "
-             "unpack sites; straight-line symbolic normal forms of the netstring and UEB parsers; concrete-value CFG "
+             "unpack sites; exhaustive constant interpretation of the base32 decoder over length classes x final bytes; straight-line symbolic normal forms of the netstring and UEB parsers; concrete-value CFG "
              "walks of the version dispatch with edge facts; must-precede / must-follow path queries and small product "
              "monitors over the lease record readers and writers")
 
@@ -316,6 +322,233 @@ def module_value(fo, m, name):
         return MagicEval(fo, m).expr(vals[-1], {})
     except NotConstant as e:
         raise AnalysisError("%s.%s cannot be evaluated: %s" % (m.name, name, e))
+
+
+class _Rejected(Exception):
+    """The interpreted codec function refused its input: a failed precondition / assert, a raise statement, or the
+    standard library's own base64 routine raising."""
+
+
+def _stdlib_b32(fn):
+    def call(*a, **kw):
+        import binascii
+        try:
+            return fn(*a, **kw)
+        except (binascii.Error, ValueError, TypeError) as ex:
+            raise _Rejected(str(ex))
+    return call
+
+
+class CodecEval(MagicEval):
+    """The engine's constant interpreter applied to the codec functions themselves (a2b / b2a of util.base32) on concrete
+    probe strings.  Additions, all confined to this rule file: module-level values are evaluated by this interpreter
+    whatever their shape (helper call, comprehension, alias of a bytes method) and memoised per run; `base64.b32encode` /
+    `base64.b32decode` of the standard library have their own meaning; `bytes.translate` / `bytes.maketrans` values and
+    the `.translate` method are understood; a failed precondition(..) / _assert(..) / assert and a `raise` end the
+    evaluation with _Rejected instead of being skipped."""
+
+    memo = {}          # (module name, global name) -> value; reset by the rule at the start of each run
+    _busy = set()
+    _BUILTINS = dict(ConstEval._BUILTINS, isinstance=isinstance)
+    _METHODS = set(ConstEval._METHODS) | {"translate", "ljust", "rjust", "center", "zfill", "islower", "isupper"}
+    _STD = {"base64.b32encode": _stdlib_b32(__import__("base64").b32encode),
+            "base64.b32decode": _stdlib_b32(__import__("base64").b32decode)}
+    _BYTES_ATTRS = {"translate": bytes.translate, "maketrans": bytes.maketrans}
+
+    def expr(self, e, env):
+        self.tick()
+        try:
+            return self._expr(e, env)
+        except (NotConstant, _EvalReturn, _Rejected):
+            raise
+        except RecursionError:
+            raise NotConstant("constexpr recursion")
+        except (IndexError, KeyError) as ex:
+            if isinstance(e, ast.Subscript):      # the analysed code's own lookup fails: the call raises, nothing is decoded
+                raise _Rejected("%s in %s" % (type(ex).__name__, ast.unparse(e)))
+            raise NotConstant("constexpr: %s: %s" % (type(ex).__name__, ex))
+        except Exception as ex:
+            raise NotConstant("constexpr: %s: %s" % (type(ex).__name__, ex))
+
+    def stmt(self, st, env):
+        if isinstance(st, ast.Expr) and isinstance(st.value, ast.Call) and st.value.args and getattr(
+                st.value.func, "id", getattr(st.value.func, "attr", "")) in ("precondition", "_assert", "postcondition"):
+            self.tick()
+            if not self.expr(st.value.args[0], env):
+                raise _Rejected("%s fails" % ast.unparse(st.value.func))
+            return
+        if isinstance(st, ast.Assert):
+            self.tick()
+            if not self.expr(st.test, env):
+                raise _Rejected("assert fails")
+            return
+        if isinstance(st, ast.Raise):
+            raise _Rejected("raise")
+        return ConstEval.stmt(self, st, env)
+
+    def _std_target(self, f):
+        p = attr_path(f)
+        if not p:
+            return None
+        head, _, rest = p.partition(".")
+        tgt = self.module.imports.get(head)
+        if tgt is None:
+            return None
+        return self._STD.get(tgt + ("." + rest if rest else ""))
+
+    def _global(self, name):
+        m = self.module
+        key = (m.name, name)
+        if key in self.memo:
+            return self.memo[key]
+        vals = m.assigns[name]
+        if len(vals) != 1:
+            raise NotConstant("%s.%s has %d bindings" % (m.name, name, len(vals)))
+        if key in self._busy:
+            raise NotConstant("%s.%s is defined in terms of itself" % key)
+        self._busy.add(key)
+        try:
+            sub = type(self)(self.folder, m)
+            v = sub.expr(vals[0], {})
+        finally:
+            self._busy.discard(key)
+        self.memo[key] = v
+        return v
+
+    def _expr(self, e, env):
+        if isinstance(e, ast.Name) and e.id not in env and e.id not in self._BUILTINS and e.id in self.module.assigns \
+                and e.id not in self.module.funcs and (self.module.name, e.id) not in self.overrides:
+            return self._global(e.id)
+        if isinstance(e, ast.Attribute):
+            if isinstance(e.value, ast.Name) and e.value.id == "bytes" and "bytes" not in env and e.attr in self._BYTES_ATTRS:
+                return self._BYTES_ATTRS[e.attr]
+            std = self._std_target(e)
+            if std is not None:
+                return std
+            raise NotConstant("constexpr: attribute %s" % ast.unparse(e))
+        if isinstance(e, ast.Call):
+            f = e.func
+            fv = None
+            if isinstance(f, ast.Name) and f.id in env:
+                fv = env[f.id]
+            elif isinstance(f, ast.Name) and f.id not in self._BUILTINS and f.id in self.module.assigns \
+                    and f.id not in self.module.funcs:
+                fv = self._global(f.id)
+            elif isinstance(f, ast.Attribute):
+                fv = self._std_target(f)
+                if fv is None and isinstance(f.value, ast.Name) and f.value.id == "bytes" and "bytes" not in env:
+                    fv = self._BYTES_ATTRS.get(f.attr)
+            if fv is not None:
+                if not (fv in self._BYTES_ATTRS.values() or fv in self._STD.values()):
+                    raise NotConstant("constexpr: call of the value %r" % (fv,))
+                args = [self.expr(a, env) for a in e.args]
+                kwargs = {k.arg: self.expr(k.value, env) for k in e.keywords if k.arg}
+                return fv(*args, **kwargs)
+        return MagicEval._expr(self, e, env)
+
+
+def codec_apply(fo, fn, arg):
+    """('value', v) | ('rejected', why) for fn(arg), interpreting fn's AST; AnalysisError when it cannot be interpreted."""
+    try:
+        return ("value", CodecEval(fo, fn.module).call(fn, [arg], {}))
+    except _Rejected as ex:
+        return ("rejected", str(ex))
+    except NotConstant as ex:
+        raise AnalysisError("%s(%r) cannot be evaluated by the constant interpreter: %s" % (fn.qual, arg, ex))
+
+
+def _loaded_names(node):
+    return {n.id for n in ast.walk(node) if isinstance(n, ast.Name) and isinstance(n.ctx, ast.Load)}
+
+
+def _reach_names(m, roots):
+    """Names loaded by the given AST nodes and, transitively, by the module-level functions of m they mention."""
+    seen, todo = set(), list(roots)
+    while todo:
+        for nm in _loaded_names(todo.pop()):
+            if nm not in seen:
+                seen.add(nm)
+                if nm in m.funcs:
+                    todo.append(m.funcs[nm].node)
+    return seen
+
+
+def _b32_probe(idx, F):
+    """Interpret util.base32's a2b / b2a on probe strings and compare with RFC 4648 base32 as b2a is specified to emit it
+    (standard library base64, '=' stripped, lower case).  A string is canonical when it is the encoding of the bytes it
+    decodes to."""
+    import base64 as _b64
+    b32 = idx.module("allmydata.util.base32")
+    enc = idx.func("util.base32:b2a")
+    dec = idx.func("util.base32:a2b")
+    CodecEval.memo = {}
+    CodecEval._busy = set()
+
+    def emit(b):
+        return _b64.b32encode(b).rstrip(b"=").lower()
+
+    def canon(p):
+        try:
+            v = _b64.b32decode(p.upper() + b"=" * (-len(p) % 8))
+        except Exception:
+            return None
+        return v if emit(v) == p else None
+    ref_chars = bytes(emit(bytes([v << 3]))[0] for v in range(32))
+    out = {"miss": {}, "miss_why": {}, "extra": {}, "extra_example": None, "wrong": [], "interior": [], "enc_wrong": [],
+           "rt_wrong": [], "evaluations": 0}
+
+    def probe(p):
+        out["evaluations"] += 1
+        return codec_apply(F.fo, dec, p)
+    # final character, two periods of the length
+    for L in range(1, 17):
+        filler = bytes(ref_chars[(7 * i + 3) % 32] for i in range(L - 1))
+        for c in range(256):
+            p = filler + bytes([c])
+            ref = canon(p)
+            kind, v = probe(p)
+            if ref is not None:
+                if kind == "rejected":
+                    out["miss"].setdefault(L % 8, set()).add(c)
+                    out["miss_why"].setdefault(L % 8, v)
+                elif v != ref:
+                    out["wrong"].append((p, v, ref))
+            elif kind == "value":
+                out["extra"].setdefault(L % 8, set()).add(c)
+                if out["extra_example"] is None:
+                    out["extra_example"] = (p, v, emit(v) if isinstance(v, bytes) else None)
+    # a character in the middle
+    base = emit(b"\x5a\xa5\x3c\xc3\x0f")
+    for c in range(256):
+        p = base[:3] + bytes([c]) + base[4:]
+        ref = canon(p)
+        kind, v = probe(p)
+        if ref is None and kind == "value":
+            out["interior"].append((p, v))
+        elif ref is not None and (kind != "value" or v != ref):
+            out["wrong"].append((p, v if kind == "value" else "rejected (%s)" % v, ref))
+    # encoder; decoder on longer encodings (padding to a multiple of 8 beyond two periods)
+    for n in list(range(0, 6)) + list(range(11, 22)):
+        for x in {bytes((37 * i + 11 * n + 5) % 256 for i in range(n)), b"\xff" * n, b"\x00" * n}:
+            e_ = emit(x)
+            out["evaluations"] += 1
+            kind, v = codec_apply(F.fo, enc, x)
+            if kind != "value" or v != e_:
+                out["enc_wrong"].append((x, repr(v) if kind == "value" else "a rejection (%s)" % v, e_))
+            if n == 0 or n > 10:
+                kind, v = probe(e_)
+                if kind != "value":
+                    out["rt_wrong"].append((x, e_, "is rejected (%s)" % v))
+                elif v != x:
+                    out["rt_wrong"].append((x, e_, "evaluates to %r" % (v,)))
+    # which table / helper decided: the module-level containers the decoder (and what it calls) reads
+    names = _reach_names(b32, [dec.node])
+    tables = sorted(nm for nm in names if nm in b32.assigns and nm not in b32.funcs
+                    and isinstance(CodecEval.memo.get((b32.name, nm)), (tuple, list, dict, set, frozenset)))
+    out["table"] = ("allmydata.util.base32:" + tables[0]) if tables else dec.qual
+    helpers = sorted(nm for t in tables for nm in _reach_names(b32, b32.assigns[t]) if nm in b32.funcs)
+    out["helpers"] = (" [%s is computed by %s]" % (", ".join(tables), ", ".join(helpers))) if helpers else ""
+    return out
 
 
 def flatten_bytes(e, defs, F, fn, depth=4):
@@ -639,6 +872,12 @@ def first_packed_constant(F, fn, min_values=2):
 def run(ctx: Context):
     idx = ctx.idx
     F = Folding(idx)
+    _pr = {}
+
+    def b32_probe():
+        if "v" not in _pr:
+            _pr["v"] = _b32_probe(idx, F)
+        return _pr["v"]
     lease_mod = idx.module("allmydata.storage.lease")
     li = idx.cls(LEASE)
     fmts = {}
@@ -1452,8 +1691,8 @@ def run(ctx: Context):
                   "never converted)" % (sorted(intkeys), sorted(stored_int)))
 
     # ---- 7. base32 / base62 tables ------------------------------------------------
-    with ctx.rule("C38.7", "R5", "base32: the decoder's acceptance tables (alphabet, last-character table s8) are exactly what "
-                  "the encoder can emit; case and padding are undone symmetrically; base62: alphabet, radix literals and "
+    with ctx.rule("C38.7", "R5", "base32: what the decoder accepts (alphabet, final characters per length class, whatever tables hold them) includes "
+                  "everything the encoder can emit and decodes to the encoded bytes; case and padding are undone symmetrically; base62: alphabet, radix literals and "
                   "translation tables agree", expected=9) as r:
         import base64 as _b64
         b32 = idx.module("allmydata.util.base32")
@@ -1470,64 +1709,23 @@ def run(ctx: Context):
         r.require(isinstance(chars, bytes) and set(chars) == emitted and len(chars) == len(emitted) == 32,
                   "allmydata.util.base32:chars", b32.relpath, "the alphabet a2b accepts is %r ; b2a emits %r" % (
                       chars, bytes(sorted(emitted))))
-        # s8[len % 8][last char]
-        MagicEval.overrides = {}
-        for nm in ("NUM_QS_TO_NUM_BITS",):
-            if nm in b32.assigns:
-                MagicEval.overrides[(b32.name, nm)] = module_value(F.fo, b32, nm)
-        s8 = module_value(F.fo, b32, "s8")
-        MagicEval.overrides = {}
-        s8_extra = {}
-        r.site("util.base32:s8")
-        want = {k: set() for k in range(8)}
-        for n in range(1, 6):
-            for v in range(256):
-                e_ = emit(b"\x00" * (n - 1) + bytes([v]))
-                want[len(e_) % 8].add(e_[-1])
-        ok = isinstance(s8, tuple) and len(s8) == 8 and all(isinstance(x, tuple) and len(x) == 256 for x in s8)
-        r.require(ok, "allmydata.util.base32:s8", b32.relpath, "s8 is not an 8 x 256 table")
-        if ok:
-            r.count(8 * 256)
-            for k in range(8):
-                got = {c for c in range(256) if s8[k][c]}
-                miss, extra = want[k] - got, got - want[k]
-                r.require(not miss, "allmydata.util.base32:s8", b32.relpath, "encodings of length = %d (mod 8) may end in %r, which "
-                          "a2b's precondition rejects: a2b(b2a(x)) fails" % (k, bytes(sorted(miss))))
-                if extra:
-                    s8_extra[k] = bytes(sorted(extra))
-        cb = idx.func("util.base32:could_be_base32_encoded")
-        pre = [c for c in calls_in_func(decf, "precondition") if c.args and isinstance(c.args[0], ast.Call)
-               and call_tail(c.args[0]) == "could_be_base32_encoded"]
+        # the decoder, interpreted on probe strings (whatever tables / helpers it consults)
+        pr = b32_probe()
+        r.site("util.base32:a2b acceptance by length class and final character (%s)" % pr["table"])
+        r.count(pr["evaluations"])
+        for k, miss in sorted(pr["miss"].items()):
+            r.violation(pr["table"], b32.relpath, "encodings of length = %d (mod 8) may end in %r, which a2b rejects "
+                        "(%s): a2b(b2a(x)) fails%s" % (k, bytes(sorted(miss)), pr["miss_why"][k], pr["helpers"]))
         r.site(decf, None)
-        dp = first_positional_params(decf)[0]
-        r.require(bool(pre) and all(attr_path(c.args[0].args[0]) == dp for c in pre), decf, decf.loc(),
-                  "a2b no longer checks could_be_base32_encoded(%s) before decoding" % dp)
-        dflt = {a.arg: d for a, d in zip(cb.node.args.args[len(cb.node.args.args) - len(cb.node.args.defaults):], cb.node.args.defaults)}
-        r.require(attr_path(dflt.get("s8")) == "s8" and attr_path(dflt.get("chars")) == "chars", cb, cb.loc(),
-                  "could_be_base32_encoded is not bound to the module tables s8 / chars")
-        sp = first_positional_params(cb)[0]
-        rets = [v for v in ret_values(cb) if v is not None and not isinstance(v, ast.Constant)]
-        wantr = norm_src("s8[len(%s) %% 8][%s[-1]] and not tr(%s, identitytranstable, chars)" % (sp, sp, sp))
-        r.require(bool(rets) and all(norm_plain(v) == wantr for v in rets), cb, cb.loc(), "could_be_base32_encoded returns %s ; "
-                  "specified: last character by s8[len %% 8], every character in chars" % [src(cb, v) for v in rets])
-        # case / padding symmetry
-        ep = first_positional_params(enc)[0]
-        erets = [v for v in ret_values(enc) if v is not None]
+        for p_, got, ref in pr["wrong"][:3]:
+            r.violation(decf, decf.loc(), "a2b(%r) evaluates to %r ; the bytes whose encoding this is are %r" % (p_, got, ref))
         r.site(enc, None)
-        forms = {norm_src('base64.b32encode(%s).rstrip(b"=").lower()' % ep), norm_src('base64.b32encode(%s).lower().rstrip(b"=")' % ep)}
-        r.require(bool(erets) and all(N(enc).norm(v) in forms for v in erets), enc, enc.loc(),
-                  "b2a returns %s ; specified RFC 4648 base32, '=' padding stripped, lower case" % [src(enc, v) for v in erets])
-        loops = [n for n in func_own_nodes(decf) if isinstance(n, ast.While)]
-        pad_ok = len(loops) == 1 and norm_plain(loops[0].test) in (
-            norm_src("(len(%s) * 5) %% 8 != 0" % dp), norm_src("len(%s) %% 8 != 0" % dp)) and len(_nopass(loops[0].body)) == 1 and \
-            isinstance(_nopass(loops[0].body)[0], ast.AugAssign) and isinstance(_nopass(loops[0].body)[0].op, ast.Add) and \
-            attr_path(_nopass(loops[0].body)[0].target) == dp and F.expr(_nopass(loops[0].body)[0].value, decf) == b"="
-        r.require(pad_ok, decf, decf.loc(), "a2b does not re-pad with '=' to a multiple of 8 characters before b32decode")
-        ups = [n for n in func_own_nodes(decf) if isinstance(n, ast.Assign) and attr_path(n.targets[0]) == dp
-               and norm_plain(n.value) == "%s.upper()" % dp]
-        drets = [v for v in ret_values(decf) if v is not None]
-        r.require(bool(ups) and bool(drets) and all(norm_plain(v) == "base64.b32decode(%s)" % dp for v in drets), decf, decf.loc(),
-                  "a2b does not upper-case its input and hand it to base64.b32decode")
+        for x_, got, ref in pr["enc_wrong"][:3]:
+            r.violation(enc, enc.loc(), "b2a(%r) evaluates to %s ; specified RFC 4648 base32, '=' padding stripped, lower "
+                        "case: %r" % (x_, got, ref))
+        for x_, e_, got in pr["rt_wrong"][:3]:
+            r.violation(decf, decf.loc(), "a2b(b2a(%r)) = a2b(%r) %s (case and padding are not undone before "
+                        "base64.b32decode)" % (x_, e_, got))
         # base62
         b62 = idx.module("allmydata.util.base62")
         c62 = module_value(F.fo, b62, "chars")
@@ -1554,16 +1752,25 @@ def run(ctx: Context):
                           "%s translates with %s ; specified %s" % (fname, [src(fn, c.args[1]) for c in tr if len(c.args) == 2], table))
 
 
-    with ctx.rule("C38.8", "R5", "base32: a2b's last-character table accepts only characters b2a can emit for that length "
+    with ctx.rule("C38.8", "R5", "base32: a2b decodes only strings b2a can emit (final characters per length class, alphabet) "
                   "(non-canonical trailing bits are malformed input and must be rejected, not read as a value)", expected=1) as r:
-        r.site("util.base32:s8")
-        r.count(8 * 256)
-        if s8_extra:
-            r.violation("allmydata.util.base32:s8", b32.relpath, "a2b accepts final characters that b2a never emits: %s.  Such a "
+        b32 = idx.module("allmydata.util.base32")
+        decf = idx.func("util.base32:a2b")
+        pr = b32_probe()
+        r.site("util.base32:a2b acceptance by length class and final character (%s)" % pr["table"])
+        r.count(pr["evaluations"])
+        if pr["extra"]:
+            ex_p, ex_v, ex_c = pr["extra_example"]
+            r.violation(pr["table"], b32.relpath, "a2b accepts final characters that b2a never emits: %s.  Such a "
                         "string has non-zero bits below the last encoded byte; base64.b32decode drops them, so two different "
-                        "strings decode to the same bytes (e.g. a2b(b'ac') == a2b(b'aa') == b'\\x00').  init_s8 asks "
-                        "get_trailing_chars_without_lsbs for 4-(bits%%5) ignored bits; the last quintet of a canonical encoding "
-                        "has 5-(bits%%5) zero bits" % "; ".join("length = %d (mod 8): %r" % (k, v) for k, v in sorted(s8_extra.items())))
+                        "strings decode to the same bytes (a2b(%r) == a2b(%r) == %r).  The last quintet of a canonical "
+                        "encoding of 8n bits has 5-(8n%%5) zero low bits: the admissible final characters are those whose "
+                        "value is a multiple of 2**(5-(8n%%5))%s" % (
+                            "; ".join("length = %d (mod 8): %r" % (k, bytes(sorted(v))) for k, v in sorted(pr["extra"].items())),
+                            ex_p, ex_c, ex_v, pr["helpers"]))
+        for p_, v_ in pr["interior"][:3]:
+            r.violation(decf, decf.loc(), "a2b(%r) evaluates to %r although the string contains a character b2a never emits: "
+                        "two different strings decode to the same bytes" % (p_, v_))
 
     # ---- 9. version dispatch of the share-layout readers ---------------------------
     with ctx.rule("C38.9", "R5", "share layout readers (immutable v1/v2 offset table, SDMF/MDMF version byte): after the "
